@@ -1,0 +1,11 @@
+//go:build verif
+
+package web
+
+import "github.com/sourcegraph/zoekt"
+
+// VerifFormatResults exposes the unexported (*Server).formatResults (snippets.go). The server must have been
+// initialised by NewMux (template caches).
+func (s *Server) VerifFormatResults(result *zoekt.SearchResult, query string, localPrint bool) ([]*FileMatch, error) {
+	return s.formatResults(result, query, localPrint)
+}
